@@ -10,7 +10,8 @@ from vengine.explore import Ctx, SymBool
 from vengine import smt, zprox
 
 META = {
-    'explanation': 'The real parameters class runs with (i) symbolic integer / real values (z3 terms) stored in its real dict, (ii) file I/O rebound to an '
+    'explanation': 'Call sequences: the observers are compared with the dictionary model after EVERY call; a stored symbolic value used as a condition forks the sequence (value == 0 / != 0); update_yourself also gets concrete falsy values. '
+                   'The real parameters class runs with (i) symbolic integer / real values (z3 terms) stored in its real dict, (ii) file I/O rebound to an '
                    'in-memory file, (iii) str(), float() and int() of symbolic values rebound to contract stubs: str(v) yields an opaque token; '
                    'int(token of an int v) = v; float(token of an int v) = D(v), the nearest binary64 (|D(v) - v| <= |v|/2^53, D(v) = v for |v| <= 2^53); '
                    'float(token of a float x) = x (repr round trip assumed), int of it raises ValueError; both raise ValueError for a non-numeric token.  '
